@@ -108,6 +108,7 @@ func VerifHealthBreakerInductive() {
 	passed := la != 0
 	lastPass := la
 	lastFail := lf
+	refFailures := int64(cb.failureThreshold)
 	for step := 0; step < S; step++ {
 		switch gosym.Choice("op", 4) {
 		case 0:
@@ -130,12 +131,17 @@ func VerifHealthBreakerInductive() {
 			cb.RecordSuccess(url)
 			open = false
 			passed = false
+			refFailures = 0
 			gosym.Assert(!cb.IsOpen(url), "P4: success closes")
 			gosym.Assert(st.failures == 0, "success clears the failure count")
 		case 3:
 			cb.RecordFailure(url)
 			lastFail = gosym.Now()
 			passed = false
+			refFailures++
+			if refFailures >= int64(cb.failureThreshold) {
+				open = true // the reference re-opens after threshold failures since the last success
+			}
 			if open {
 				gosym.Assert(cb.IsOpen(url), "P5: a failed probe keeps the breaker open for another timeout")
 			}
